@@ -53,7 +53,19 @@ def build(rng, enz):
         if rng.random() < 0.3:
             rot = rot >> rng.randrange(n)
         c = impl.canon_record(rot)
-        ents.append(asm.ent_json(oid, cname, c.seq, c.feats))
+        # a location running past the end is what `>>` writes; a GenBank file spells the same feature as a join
+        # across the origin: use both spellings
+        cf = []
+        for ft in c.feats:
+            ps = []
+            for (s, e, st) in ft.parts:
+                if 0 <= s < n < e <= s + n and rng.random() < 0.5:
+                    two = [(s, n, st), (0, e - n, st)]
+                    ps += two[::-1] if st == -1 else two
+                else:
+                    ps.append((s, e, st))
+            cf.append(ft._replace(parts=tuple(ps)))
+        ents.append(asm.ent_json(oid, cname, c.seq, cf))
         meta.append({"oid": oid, "word": wd, "feats": feats_to_json(feats), "fs": fs, "L": L})
     mods_j = ents[:-1]
     rng.shuffle(mods_j)
@@ -70,8 +82,7 @@ def expected_features(meta):
         for f in feats_from_json(m["feats"]):
             pos = [[t % n for t in range(s, e)] for (s, e, st) in f.parts]
             if all(set(q) <= frag for q in pos):
-                mapped = sorted((tuple(sorted(offset + ((t - fs) % n) for t in q)), st)
-                                for q, (s, e, st) in zip(pos, f.parts))
+                mapped = sorted((offset + ((t - fs) % n), st) for q, (s, e, st) in zip(pos, f.parts) for t in q)
                 exp.append((f.ftype, f.qual, tuple(mapped)))
                 stats[0] += 1
             else:
@@ -95,8 +106,7 @@ def check_case(ctx, case):
         for pf in impl.canon_record(prod).feats:
             if pf.ftype == 0 and pf.qual in generated:
                 continue        # the provenance feature generated for a fragment of one of the inputs
-            got.append((pf.ftype, pf.qual, tuple(sorted((tuple(sorted(t % N for t in range(s, e))), st)
-                                                        for (s, e, st) in pf.parts))))
+            got.append((pf.ftype, pf.qual, tuple(sorted((t % N, st) for (s, e, st) in pf.parts for t in range(s, e)))))
         got.sort()
         if got != exp:
             extra = [g for g in got if g not in exp][:2]
